@@ -331,6 +331,7 @@ class TenSym(PySym):
         self.classes = parent.classes if parent is not None else {}     # name -> ast.ClassDef: instantiated from their source (instantiate)
         self.generic_eq = parent.generic_eq if parent is not None else False    # symbolic scalars compare equal iff they are the same expression
         self.sampling = parent.sampling if parent is not None else False
+        self.moderate = parent.moderate if parent is not None else False      # order comparisons of symbolic scalars are decided for moderate values wherever they occur (not only in `if` tests)
         self.module_env = parent.module_env if parent is not None else {}      # names of the analysed module (imports, constants): visible in every function evaluated below
 
     # ------------------------------------------------------------------ helpers
@@ -919,7 +920,7 @@ class TenSym(PySym):
                 return a in b
             if isinstance(op, ast.NotIn):
                 return a not in b
-        if getattr(self, "sampling", False) and isinstance(op, (ast.Lt, ast.LtE, ast.Gt, ast.GtE, ast.Eq, ast.NotEq)):
+        if (getattr(self, "sampling", False) or getattr(self, "moderate", False)) and isinstance(op, (ast.Lt, ast.LtE, ast.Gt, ast.GtE) + ((ast.Eq, ast.NotEq) if getattr(self, "sampling", False) else ())):
             # a range check on values of the world, decided for moderate values: every symbol stands for a number between 1 and 2 (see moderate_assume)
             va_, vb_ = sample_value(self.lift(a)), sample_value(self.lift(b))
             if va_ is not None and vb_ is not None:
